@@ -42,3 +42,19 @@ def called_only_from(meths, roots):
                 allowed.add(name)
                 changed = True
     return allowed, callers_of
+
+
+MEMO_DECORATORS = ('lru_cache', 'cache', 'cached_property')
+
+
+def memoised(program):
+    """(function, decorator node) for every function of the package wrapped
+    in a functools memoiser."""
+    from dlint.model import dotted
+    out = []
+    for fn in program.all_functions():
+        for d in fn.node.decorator_list:
+            name = dotted(d.func if isinstance(d, ast.Call) else d) or ''
+            if name.split('.')[-1] in MEMO_DECORATORS:
+                out.append((fn, d))
+    return out
